@@ -1,5 +1,6 @@
 import SdcModel.MdibDescr
 import SdcModel.Proofs.MdibVer
+import SdcModel.Proofs.MdibMono
 /-!
 # C02 — MDIB version counters are monotonic, gap-free and referentially consistent
 Property theorems over the provider model (`SdcModel/Mdib.lean`, `MdibDescr.lean`); helper lemmas are in `Proofs/Mdib*.lean`.
@@ -69,5 +70,83 @@ theorem mdib_version_step (t : Tables) (sc : Script) :
               simp only [he, Bool.false_eq_true, if_false, true_implies, reduceCtorEq, or_self, false_implies, and_true]
               rw [heq] at hv; exact hv
           · simp [commitD, he, hc]
+
+/-! ## referential well-formedness (`WF`, see `Proofs/MdibWF.lean`) -/
+
+/-- tables used for the non-vacuity examples: an MDS (1) with a metric (3) and a context descriptor (4), two single states,
+    one context state, saved versions of removed objects -/
+def exT : Tables where
+  ver := 5
+  descrs := [⟨1, none, .component, 3, 0, some 1⟩, ⟨3, some 1, .metric, 1, 0, some 1⟩, ⟨4, some 1, .context, 1, 0, some 1⟩]
+  states := [⟨1, 3, 4, .component, 0⟩, ⟨3, 1, 0, .metric, 0⟩]
+  ctx := [{ h := 10, dh := 4, dv := 1, sv := 2, body := 0, assoc := .assoc, bindV := none, unbindV := none, bindT := none, unbindT := none }]
+  dSaved := [(6, 4)]
+  sSaved := [(6, 9)]
+  cSaved := [(12, 3)]
+
+def exS : SScript := ⟨.metric, [.get 3, .setBody 3 5], false, false⟩
+def exC : CScript := ⟨[.get 10, .mk 4 11 false true 7 0, .mk 4 12 true false 8 0], false, false⟩
+
+example : WF exT := by decide
+example : (runS exT exS).2.2 = .committed := by decide
+example : (runC exT exC).2.2 = .committed ∧ FreshUuids exT exC := by decide
+
+/-- every state transaction script (all five kinds; committed, empty, rejected, with caught errors, aborted) keeps the
+    tables well-formed: states refer to existing descriptors and carry their version, one single state per descriptor,
+    parents exist, keys unique -/
+theorem wf_preserved_state (t : Tables) (s : SScript) (h : WF t) : WF (runS t s).1 := (runS_ok h s).2
+
+/-- the same for every context state transaction script, even one whose commit dies on a colliding generated handle -/
+theorem wf_preserved_context (t : Tables) (s : CScript) (h : WF t) : WF (runC t s).1 := runC_wf h s
+
+/-! ## per-object version counters (`seenS`/`seenC`: live version, else the saved version of the removed object) -/
+
+/-- StateVersion of every single state never decreases over a state transaction, whatever the script does -/
+theorem state_version_monotone (t : Tables) (s : SScript) (hw : WF t) (h : Handle) : seenS t h ≤ seenS (runS t s).1 h :=
+  runS_seenS hw s h
+
+/-- a single state whose content differs after a state transaction has a strictly larger StateVersion -/
+theorem content_change_bumps (t : Tables) (s : SScript) (hw : WF t) (h : Handle) (a b : SState)
+    (ha : findS t h = some a) (hb : findS (runS t s).1 h = some b) (hne : a.body ≠ b.body) : a.sv < b.sv := by
+  rcases runS_change hw s ha hb with e | e
+  · exact absurd (e ▸ rfl) hne
+  · exact e
+
+/-- stronger: any difference at all (content, DescriptorVersion, ...) comes with a larger StateVersion -/
+theorem state_change_bumps (t : Tables) (s : SScript) (hw : WF t) (h : Handle) (a b : SState)
+    (ha : findS t h = some a) (hb : findS (runS t s).1 h = some b) (hne : a ≠ b) : a.sv < b.sv :=
+  (runS_change hw s ha hb).resolve_left hne
+
+example : seenS exT 3 = some 0 ∧ seenS (runS exT exS).1 3 = some 1 ∧ seenS exT 6 = some 9 := by decide
+
+/-- StateVersion of every context state (live or removed) never decreases over a context transaction, provided the handles
+    generated for `mk_context_state(handle=None)` are fresh -/
+theorem context_version_monotone (t : Tables) (s : CScript) (hw : WF t) (hf : FreshUuids t s) (h : Handle) :
+    seenC t h ≤ seenC (runC t s).1 h := runC_seenC hw s hf h
+
+/-- a context state that differs after a context transaction has a strictly larger StateVersion -/
+theorem context_change_bumps (t : Tables) (s : CScript) (hw : WF t) (hf : FreshUuids t s) (h : Handle) (a b : CState)
+    (ha : findC t h = some a) (hb : findC (runC t s).1 h = some b) (hne : a ≠ b) : a.sv < b.sv :=
+  (runC_change hw s hf ha hb).resolve_left hne
+
+/-- re-creating a removed context state handle continues above the saved version (12 was removed at version 3) -/
+example : seenC exT 12 = some 3 ∧ seenC (runC exT exC).1 12 = some 4 ∧ seenC (runC exT exC).1 10 = some 3 := by decide
+
+/-- without the freshness hypothesis the counter can go down: a generated handle that collides with a removed one restarts at 0 -/
+theorem context_version_monotone_needs_fresh :
+    ¬ (seenC exT 12 ≤ seenC (runC exT ⟨[.mk 4 12 false false 8 0], false, false⟩).1 12) := by
+  have h1 : seenC exT 12 = some 3 := by decide
+  have h2 : seenC (runC exT ⟨[.mk 4 12 false false 8 0], false, false⟩).1 12 = some 0 := by decide
+  rw [h1, h2]; simp
+
+/-- a state transaction does not touch descriptors or context states, a context transaction no descriptors or single states -/
+theorem state_tx_frame (t : Tables) (s : SScript) (h : Handle) :
+    seenD (runS t s).1 h = seenD t h ∧ seenC (runS t s).1 h = seenC t h ∧ (runS t s).1.descrs = t.descrs ∧ (runS t s).1.ctx = t.ctx := by
+  obtain ⟨a, b, c, d⟩ := runS_frame t s
+  exact ⟨seenD_congr a c h, seenC_congr b d h, a, b⟩
+theorem context_tx_frame (t : Tables) (s : CScript) (h : Handle) :
+    seenD (runC t s).1 h = seenD t h ∧ seenS (runC t s).1 h = seenS t h ∧ (runC t s).1.descrs = t.descrs ∧ (runC t s).1.states = t.states := by
+  obtain ⟨a, b, c, d⟩ := runC_frame t s
+  exact ⟨seenD_congr a c h, seenS_congr b d h, a, b⟩
 
 end Sdc.C02
